@@ -13,6 +13,8 @@ void create() {
 int query_id() { return id; }
 int shb(int v) { set_heart_beat(v); return query_heart_beat(this_object()); }
 void die() { destruct(this_object()); }
+// careless object: goes on after its own destruction (records first: call_other from a destructed object does nothing)
+void zombie(int v) { LOG(({ "op", id, "dest", id, 0 })); LOG(({ "op", id, "zombie-shb", id, v })); destruct(this_object()); set_heart_beat(v); }
 
 // ops: 8 self set_heart_beat(val); 9 reload_object(tgt) whose create() enables interval val; 1 self off; 2 other->shb(val); 3 destruct self; 4 destruct other; 5 clone /hb/t; 6 clone /hb/u; 7 error
 void run(int o, int t, int v) {
@@ -26,6 +28,7 @@ void run(int o, int t, int v) {
     case 6: x = "/hb/log"->make("/hb/u", t, v); LOG(({ "op", id, "clone-u", t, v, objectp(x) })); break;
     case 8: set_heart_beat(v); LOG(({ "op", id, "shb", id, v })); break;                 // change the own interval from inside heart_beat
     case 9: "/hb/log"->reload(id, t, v); break;                                          // reload_object(t) (t may be this object)
+    case 10: zombie(v); break;                                                           // destruct self, then set_heart_beat(val) on the destructed self
     case 7: LOG(({ "op", id, "err", id, 0 })); error("C11 heart_beat error\n"); break;
   }
 }
